@@ -466,11 +466,11 @@ def run(ck, progs):
     describe(ck)
     ck.rule("R01e", "every loop over msa_seq.gaps covers all len+1 slots (row length = len + sum of gaps[0..len])")
     for cfg, prog in progs.items():
-        r01a(ck, prog)
-        r01b(ck, prog)
-        r01c(ck, prog)
-        r01d(ck, prog)
-        r01e(ck, prog)
+        ck.attempt(r01a, ck, prog)
+        ck.attempt(r01b, ck, prog)
+        ck.attempt(r01c, ck, prog)
+        ck.attempt(r01d, ck, prog)
+        ck.attempt(r01e, ck, prog)
     return ("CFG must-pass-through / precedence for the six pipeline stages of kalign_run and the three of kalign(); "
             "who-may-read/write table for msa_seq.rank over every function; provenance of every store into a row buffer "
             "and every residue print in the functions reachable from the exporters; status gate reachability and "
